@@ -238,19 +238,26 @@ func phiSteps(phi *ssa.Phi) (inits, steps []term) {
 	return
 }
 
-// litField returns the value stored into field `name` of a composite literal allocation.
+// litField returns the value stored into field `name` of a composite literal allocation
+// (the initialising store: the one in the allocation's own block, else any store).
 func litField(a *ssa.Alloc, name string) ssa.Value {
-	var out ssa.Value
+	var out, init ssa.Value
 	for _, r := range *a.Referrers() {
 		if fa, ok := r.(*ssa.FieldAddr); ok {
 			if _, n, _, _ := fieldOf(fa); n == name {
 				for _, rr := range *fa.Referrers() {
 					if st, ok := rr.(*ssa.Store); ok {
 						out = st.Val
+						if st.Block() == a.Block() && init == nil {
+							init = st.Val
+						}
 					}
 				}
 			}
 		}
+	}
+	if init != nil {
+		return init
 	}
 	return out
 }
